@@ -307,7 +307,9 @@ def malformed_batch(job):
         # operations after the failing one have no recorder entry
         recs = list(recs) + [{"kwait": -1, "dwait": -1} for _ in range(len(ops) - len(recs))]
         out.append({"idx": idx, "ai": ai, "defect": defect, "real": err if words is None else "ok:%d" % len(words),
-                    "line": c06_ops.request(ai, ops, recs[:len(ops)], [], tag="c06model")})
+                    "line": c06_ops.request(ai, ops, recs[:len(ops)], [], tag="c06model"),
+                    # accepted although a defect was injected: the Spec judges the emitted stream (failing-input search)
+                    "spec_line": c06_ops.request(ai, ops, recs[:len(ops)], words, tag="c06p") if words is not None else None})
     return out
 
 
@@ -512,7 +514,8 @@ def main():
         if not d["model_eq"]:
             model_diff.append((c, d))
     for c, d in spec_bad[:6]:
-        what = ("stream does not encode the operations it was given: " if d.get("cmp") else
+        what = ("emitted stream does not decode: " if d.get("decode") != "ok" else
+                "stream does not encode the operations it was given: " if d.get("cmp") else
                 "stream violates " + ("the single final stop" if d.get("stop") != 1 else "fit / alignment rules") + ": ")
         ck.violation(what + d["raw"][d["raw"].find("|") + 2:][:260] + f" (accelerator index {c['ai']}, {c['meta']['n']} operations)",
                      {"case": {"seed": ck.seed, "index": c["idx"]}, "request": c["line"][:20000], "verdict": d["raw"][:1500],
@@ -563,6 +566,15 @@ def main():
         same = (got == want) if want.startswith("err") else got.startswith("ok:") and got == want
         if not same:
             mal_diff.append((m, got))
+    # failing-input search on the malformed stream: whatever the generator accepted must still satisfy the Spec
+    acc_mal = [m for m in mal if m.get("spec_line")]
+    for m, a in zip(acc_mal, ck.model([m["spec_line"] for m in acc_mal]) if acc_mal else []):
+        d = parse(a)
+        bad = not (d.get("decode") == "ok" and d.get("stop") == 1 and d.get("cmp") == 0 and d.get("align") == 0 and d.get("scalebase") == 0)
+        if bad and not pool_scale_only(d):
+            ck.violation(f"a list with injected defect '{m['defect']}' is accepted and its stream breaks the Spec: " + d["raw"][d["raw"].find("|") + 2:][:240],
+                         {"defect": m["defect"], "malformed_case": {"seed": ck.seed, "index": m["idx"]}, "request": m["spec_line"][:20000],
+                          "verdict": d["raw"][:1200]})
     # ---- edge probes ------------------------------------------------------------------------------
     for name, ai, ops, expect in edge_cases():
         words, recs, err = run_real(ai, ops)
